@@ -13,6 +13,7 @@ class C01(SchedProp):
     props_modules = ['CylcModel.Props.C01']
     theorems = [
         'CylcModel.C01.submit_sound',
+        'CylcModel.C01.submit_sound_before',
         'CylcModel.C01.launch_only_from_queued',
         'CylcModel.C01.queued_only_when_satisfied',
         'CylcModel.C01.prereq_atoms_justified',
@@ -33,10 +34,9 @@ class C01(SchedProp):
         'submit_closed (full, in the form: every pooled / recorded / launched instance is in the spawn-on-demand '
         'closure = parentless points + graph children of completed outputs of closure members; the closure rule does '
         'not require the parent to have been submitted). Technique: every model primitive is refined to a sequence of '
-        'atomic actions (step_refines) and the invariants are proved per atomic action. Partial: the justification of '
-        'a launch is stated against the outputs recorded in the state after the operation that contains the launch '
-        '(the atomic-action invariant holds at the launch itself; the judge uses the observations before the '
-        'operation); closure_complete (closure within bounds is fully submitted at an automatic shutdown) is NOT proved '
+        'atomic actions (step_refines) and the invariants are proved per atomic action; submit_sound_before states the '
+        'temporal order: the launches of an operation are justified by the outputs recorded complete BEFORE the '
+        'operation (as the judge checks on the observations). Partial: closure_complete (closure within bounds is fully submitted at an automatic shutdown) is NOT proved '
         '(def closure_complete_full; needs the no-deadlock argument of C04) - proved of it: auto_shutdown_quiescent; '
         'it is decided by the judge on every real run of kind complete. Not in Sched v1: commands, several flows, '
         'xtriggers, datetime cycling, families (expanded before the model)')
